@@ -41,8 +41,14 @@ def r_origin(root):
         t = load(root, rel)
         for c in calls(t):
             if callee_name(c) != "pos_to_linecol": continue
+            if isinstance(getattr(c, "_parent", None), ast.Assign) and False: continue
             fn = enclosing_func(c); inst += 1
-            recv = root_of(c.func.value, fn); pos = root_of(c.args[0], fn)
+            fexpr = c.func
+            if isinstance(fexpr, ast.Name) and fn is not None:
+                from sa import sem as _sem
+                fexpr = _sem.info(fn).expand(fexpr, at=c)
+            if not isinstance(fexpr, ast.Attribute): raise AnalysisError("pos_to_linecol called through %s: receiver cannot be determined" % ast.unparse(c.func))
+            recv = root_of(fexpr.value, fn); pos = root_of(c.args[0], fn)
             extra = set()
             f = fn
             while f is not None:
@@ -69,8 +75,10 @@ def r_origin(root):
     d = {k.value: v for k, v in zip(ret.keys, ret.values)}
     if not (root_of(d["filename"], gl) == "model_obj" and "nchar" in d and set(d) == {"line", "col", "nchar", "filename"}):
         out.append(Finding("C06", "C06.a", "textx/model.py", "get_location", ast.unparse(ret), "location keys / owner changed"))
-    nch = next((s for s in gl.body if isinstance(s, ast.Assign) and ast.unparse(s.targets[0]) == "nchar"), None)
-    if nch is None or ast.unparse(nch.value).replace(" ", "") != "model_obj._tx_position_end-model_obj._tx_position": out.append(Finding("C06", "C06.a", "textx/model.py", "get_location", ast.unparse(nch) if nch else "", "nchar is not end - start of the object's span"))
+    from sa import sem as _sem
+    figl = _sem.info(gl); pm = gl.args.args[0].arg
+    nval = figl.expand(d["nchar"], at=ret) if "nchar" in d else None
+    if nval is None or ast.unparse(nval).replace(" ", "") != "%s._tx_position_end-%s._tx_position" % (pm, pm): out.append(Finding("C06", "C06.a", "textx/model.py", "get_location", "nchar = " + (ast.unparse(nval) if nval is not None else "?"), "nchar is not end - start of the object's span"))
     return inst, out
 ALL = [r_origin]
 if __name__ == "__main__":
